@@ -139,12 +139,14 @@ impl Terminal {
     fn handle_key(&mut self, key: Key) -> bool {
         match key {
             Key::Enter => {
-                if self.is_next() && self.buffer.trim().is_empty() {
+                // A blank line is never submitted, whether it was typed or recalled from the
+                // history (the history file may contain one)
+                self.update_next();
+                if self.buffer.trim().is_empty() {
                     self.buffer.clear();
                     self.visible_cursor = 0;
                     println!();
                 } else {
-                    self.update_next();
                     return true;
                 }
             }
